@@ -1969,6 +1969,10 @@ CHECKS["C11"]["run"] = _c11_run
 _c10_src = CHECKS["C10"]["run"]
 def _c10_run(rep, tier, seed, tr):
     _c10_src(rep, tier, seed, tr)
+    # the same kind of files through the binary (its own file reading, `FileSystemImpl`): ranges against the bytes ON DISK
+    rep.rules.append("plus 300 (thorough: 3000) of the violating files through the binary: the printed ranges equal the model's (byte positions in the file as it is on disk, byte order mark included)")
+    rows = K.run_component(rep.prop, "src diag", [], seed + 17, n_for(tier, 300, 3000), tier)
+    cli_correspondence(rep, rows, "src diag", n_for(tier, 300, 3000), subs=("validate",), known=K.load_known(rep.prop))
     c10_async_ranges(rep, tier, seed, tr)
 CHECKS["C10"]["run"] = _c10_run
 CHECKS["C10"]["needs_binary"] = True
